@@ -10,7 +10,7 @@ import ast
 from .absint import (clone_value, Interp, Node, Obj, NeedAtom, DomainGrew, Budget, _Raise, _Return, C_NONE, OTHER, show, enumerate_cells,
                      count_effects, flat_effects, deps_of)
 from .layers import LayerRunner, symbolic_node, LAYERS
-from .stackmodel import default_layers, flatten, FLAGS
+from .stackmodel import default_layers, flatten, FLAGS, StackError
 
 PAYLOAD_KINDS = ("conversation", "image", "contact", "location", "extended_text", "document", "audio", "video", "sticker", "protocol")
 ATOM_PAYLOAD = ("A", ("proto",), "#payload")
@@ -26,7 +26,7 @@ class GroupSim:
             v, se = default_layers(repo, flags)
             layers = flatten(v)
             if layers is None:
-                raise ValueError("default layers could not be evaluated")
+                raise StackError("default layers could not be evaluated", se.errors)
             layer_classes = layers[-1]
             self.all_layers = layers
         self.layer_classes = layer_classes
